@@ -40,6 +40,8 @@ def main(argv=None):
         else:
             mod.run(ctx)
         ctx.write_evidence()
+        if getattr(ctx, "evidence_problems", None) and not ctx.violations:
+            raise MachineryError(f"the evidence record lacks what its level requires: {ctx.evidence_problems}")
         rc = 1 if ctx.violations else 0
         nk = sum(ctx.known_hits.values())
         print(f"[{pid}] tier={a.tier} seed={seed} violations={len(ctx.violations)} known_finding_hits={nk} "
